@@ -252,8 +252,15 @@ def atten_uniform():
 def _layered(n_layers, order):
     """contiguous uniform layers with symbolic boundaries b0 > b1 > ... and indices n_i,
     handed to the constructor in the permutation `order`"""
-    bs = [real("b%d" % i) for i in range(n_layers + 1)]
-    ns = [real("n%d" % i) for i in range(n_layers)]
+    if NATIVE:
+        # sampled: surface at or below 0, layers 50 m to 1500 m thick
+        bs = [real("b0", -200, 0)]
+        for i in range(n_layers):
+            bs.append(bs[-1] - real("thickness_%d" % i, 50, 1500))
+        ns = [real("n%d" % i, 1.0, 2.0) for i in range(n_layers)]
+    else:
+        bs = [real("b%d" % i) for i in range(n_layers + 1)]
+        ns = [real("n%d" % i) for i in range(n_layers)]
     for i in range(n_layers):
         assume(bs[i] > bs[i + 1])
         assume(ns[i] >= 1)
@@ -266,7 +273,12 @@ def _layered_checks(n_layers, order):
     ice, layers, bs, ns = _layered(n_layers, order)
     prove("layers-sorted-top-down", And(*[same_object(ice.layers[i], layers[i]) for i in range(n_layers)]))
     prove("boundaries", eq(ice.boundaries, bs))
-    z = real("z")
+    if NATIVE:
+        # the interesting depths are the layer edges themselves: drawn exactly, half of the time
+        pick = integer("edge_pick", 0, 2 * n_layers + 1)
+        z = bs[pick] if pick <= n_layers else real("z", bs[n_layers] - 100, bs[0] + 100)
+    else:
+        z = real("z")
     for i in range(n_layers):
         inside = And(bs[i + 1] < z, z <= bs[i])
         if i == n_layers - 1:
